@@ -156,6 +156,30 @@ def _sign(e: ast.expr, env: dict, depth: int = 0) -> str:
     return "unknown"
 
 
+def _check_inputs_untouched(prog: Program, L: Ledger, afb, fns) -> None:
+    """R7: the update functions and the schemes are functions of their arguments: they never change, in place, an array
+    they were given (np.asarray / a slice / .T of an argument is the same memory) — the variance recorded by the driver, or
+    the caller's array, would otherwise be rescaled by every evaluation."""
+    from ..purity import array_params, inplace_writes
+
+    n = 0
+    for f0 in fns:
+        if f0 is None:
+            continue
+        f = flat(prog, f0, afb, public_methods=True)
+        allp, arr = array_params(f0.node)
+        allp.discard("atoms")
+        n += 1
+        ws = inplace_writes(f.body(), params=allp, direct=arr | allp)  # every argument may be an array here (per-coordinate variance)
+        for node, al in ws:
+            L.violation("R7", f"{f0.qualname}:mutates-argument", f"{f0.module.relpath}:{node.lineno}",
+                        f"`{norm(node)[:90]}` changes `{al}` in place, which may share storage with an argument of {f0.name} (np.asarray of a float array is that array)",
+                        "call it twice on the same per-coordinate variance: the second call sees the rescaled values — delta leaves [min_delta, max_delta]; the variance the driver recorded no longer matches delta", norm(node)[:100])
+        if not ws:
+            L.ok("R7", f"{f0.qualname}:arguments-untouched", f0.where)
+    L.floor("update functions / schemes checked for in-place changes of their arguments", n, 4)
+
+
 def _check_nonnegative_schemes(prog: Program, L: Ledger, afb, schemes: ast.Dict) -> None:
     """R6: the update functions are monotone maps of [0, ∞) onto (0, 1]; a scheme that can return a negative coefficient
     leaves that domain (tanh/exp of a negative argument exceed 1 → delta above max_delta, non-monotone in the variance)."""
@@ -206,6 +230,7 @@ def run(prog: Program, L: Ledger) -> None:
     L.rule("R3", "delta = min_delta + (max_delta − min_delta)·update(variation)")
     L.rule("R4", "without committee data each variation-coefficient getter returns reference_variance (broadcast)")
     L.rule("R5", "step() calls update_delta() before the inherited force-bias step on every path")
+    L.rule("R7", "update functions and schemes never change an argument in place (directly or through np.asarray / a view)")
     L.rule("R6", "every scheme returns a non-negative variation coefficient (structural sign analysis: spreads, absolute values, counts and their sums / products / quotients)")
     L.assume("reference_variance is configured non-negative")
 
@@ -383,6 +408,7 @@ def run(prog: Program, L: Ledger) -> None:
     L.floor("fallback returns", n, 2)
 
     _check_nonnegative_schemes(prog, L, afb, schemes)
+    _check_inputs_untouched(prog, L, afb, [f_ for _n, f_ in funcs] + [prog.lookup_method(afb, v_.attr) for v_ in schemes.values if isinstance(v_, ast.Attribute)])
 
     # ---------------------------------------------------------------- R5
     st = afb.methods.get("step")
